@@ -409,6 +409,32 @@ for _k, _v in ROUND3.items():
         CHECKS[_k]["text"] += " " + _v
 
 
+# ---- coverage added in build round 4 (after the fourth set of seeded changes)
+ROUND4 = {
+    "C01": "Round 4: two components of ONE stored container / two method results of one object compared with each other (EQLTerms, 1388 "
+           "conditions); for_all whose body is a union-form or_ (open finding C01-F38 attributed by signature).",
+    "C03": "Round 4: IterSched with N = 0 (a variable whose domain is empty after the type filter, shared by two queries); a rule extended "
+           "by a refinement after a first evaluation (rule_grow).",
+    "C05": "Round 4: in every third heap distinct non-root objects of one class carry equal scalar values; a loaded copy's JSON columns "
+           "are modified in memory and the row is loaded again.",
+    "C06": "Round 4: a second generator over one diagram object and a generation after the model's modules were executed again must "
+           "produce the same text.",
+    "C07": "Round 4: a bare non-boolean attribute as a condition (values other than 0 / 1), `!= None` and `== None` on an Optional integer.",
+    "C08": "Round 4: the second of two iterables obtained back to back; RuleNewVar's third template (two base bindings share the values "
+           "of every conclusion variable).",
+    "C15": "Round 4: the sub-property descriptor is declared on a base class whose super-property field exists on a subclass only (geo "
+           "model); augmented assignment as a fifth write form.",
+    "C17": "Round 4: after a view was derived the original's class lookup must still hand out its own nodes.",
+    "C18": "Round 4: classes whose __init_subclass__ chain is broken and a make_dataclass class; every value also through the JSON "
+           "(de)serialiser that create_engine installs (stored, loaded, loaded copy modified, loaded again).",
+    "C20": "Round 4: CreateRef / Detach - an instance refers to another through a plain attribute that is later reset, around a partially "
+           "consumed evaluation that reaches the referred instance through that attribute.",
+}
+for _k, _v in ROUND4.items():
+    if _k in CHECKS:
+        CHECKS[_k]["text"] += " " + _v
+
+
 # further TLA+ modules a check runs besides its main engine (listed under MANIFEST.engines)
 EXTRA_ENGINES = {
     "C01": ["EQLFlat", "EQLTerms"],
